@@ -124,7 +124,7 @@ def check_C03(ctx):
     dup = "PROGRAM f IN a, a OUT a DO a := a END\nx1 := RUN f WITH 1, 2 END\n"
     cases.append({'defs': None, 'main': None, 'mainf': b'm', 'files': {b'm': dup.encode()}, 'layout': 'dup-params', 'text': {'m': dup}})
     tri = [(c['mainf'], c['files'], c) for c in cases]
-    a, b = front.corr_gen(ctx, tri)
+    a, b = front.corr_gen(ctx, tri, keys=['ok', 'code', 'maps'])
     val = translation_validation(ctx, cases, a, want_shape=False)
     runs = impl(ctx, ['RUN %s 200000' % files_req(c['mainf'], c['files']) for c in cases], timeout=60)
     for i, (c, x, rn) in enumerate(zip(cases, a, runs)):
@@ -175,7 +175,7 @@ def check_C16(ctx):
         cases.append({'defs': None, 'main': None, 'mainf': b'm', 'files': fl, 'layout': 'recursion-attempt', 'text': {k.decode(): v.decode() for k, v in fl.items()}})
     cases.append({'defs': None, 'main': None, 'mainf': b'm', 'files': {b'm': okredef.encode()}, 'layout': 'redef-ok', 'text': {'m': okredef}})
     tri = [(c['mainf'], c['files'], c) for c in cases]
-    a, b = front.corr_gen(ctx, tri)
+    a, b = front.corr_gen(ctx, tri, keys=['ok', 'errs', 'code'])
     val = translation_validation(ctx, cases, a, want_shape=False)
     runs = impl(ctx, ['RUN %s 3000000' % files_req(c['mainf'], c['files']) for c in cases], timeout=120)
     P = front.enum_table('GErrT')
@@ -246,7 +246,7 @@ def check_C01(ctx, thms=None):
     cases = gen_programs(ctx, ctx.n(900, 9000))
     cases += gen_programs(ctx, ctx.n(150, 1500), big=True, layouts=('canonical',))
     tri = [(c['mainf'], c['files'], c) for c in cases]
-    a, b = front.corr_gen(ctx, tri)
+    a, b = front.corr_gen(ctx, tri, keys=['ok', 'code', 'maps'])
     val = translation_validation(ctx, cases, a, want_shape=True)
     runs = impl(ctx, ['RUN %s %d' % (files_req(c['mainf'], c['files']), B * 40) for c in cases], timeout=120)
     sems = model(ctx, ['SEM %s %d' % (files_req(c['mainf'], c['files']), B * 12) for c in cases], timeout=300) if ctx.driver else [None] * len(cases)
